@@ -62,9 +62,9 @@ def strip_aux(r):
     r = dict(r)
     for f in ('orig', 'pretty'):
         if f in r:
-            r[f] = [{k: v for k, v in it.items() if k != 'unordered'} for it in r[f]]
+            r[f] = [{k: v for k, v in it.items() if k not in ('unordered', 'nocond')} for it in r[f]]
     if 'scheme' in r:
-        r['scheme'] = dict(r['scheme'], definitions=[{k: v for k, v in it.items() if k != 'unordered'} for it in r['scheme']['definitions']])
+        r['scheme'] = dict(r['scheme'], definitions=[{k: v for k, v in it.items() if k not in ('unordered', 'nocond')} for it in r['scheme']['definitions']])
     return r
 
 
@@ -128,7 +128,15 @@ def drive(chk, which, label):
                     x == y or (x.get('unordered') and x.get('unordered') == y.get('unordered') and x['name'] == y['name']) for x, y in zip(unorder(r['orig']), unorder(other))):
                 why += ' (only the order of the rules of a hierarchical ruleset)'
                 where = a['what'] if not a['id'].startswith('corpus') else 'corpus'
-            if ('statements' in why or 'does not match' in why) and re.search(r'(inner|left|full|cross)_join\s*\([^;]*\baggr\b', r.get('text') or ''):
+            # ... or only the conditions attached to code items of hierarchical rules (A = B [cond] + C)
+            cmp_to = r.get('pretty') if 'statements' in why else ([x for x in r['orig'] if x['kind'] == 'assign'] + [dict(x, kind='define') for x in r['scheme']['definitions']] if 'does not match' in why else None)
+            if cmp_to is not None and 'only the order' not in why:
+                a0 = sorted((x['kind'], x['name'], x.get('nocond', x['body'])) for x in r['orig'])
+                a1 = sorted((x['kind'], x['name'], x.get('nocond', x['body'])) for x in cmp_to)
+                if a0 == a1 and any('nocond' in x for x in r['orig']):
+                    why += ' (only the conditions on code items of hierarchical rules are lost)'
+                    where = a['what'] if not a['id'].startswith('corpus') else 'corpus'
+            if ('statements' in why or 'does not match' in why or 'evaluates differently' in why) and re.search(r'(inner|left|full|cross)_join\s*\([^;]*\baggr\b', r.get('text') or ''):
                 where = 'aggr clause inside a join'
             if 'TransformationScheme' in why and any(it.get('what') == 'viral' for it in r['orig']):
                 where = 'viral propagation definitions'
